@@ -13,7 +13,7 @@ from __future__ import annotations
 import ast
 
 from ..astutil import dotted, src, walk_local, local_assignments, calls
-from ..report import AnalysisError, Report
+from ..report import AnalysisError, Report, Frag
 from .c03 import _closures
 from .c19 import discover_factories
 
@@ -22,7 +22,7 @@ def check(prog, rep):
     ch = prog.func("optyx.core.autodiff:compute_hessian")
     s = src(ch.node)
     a = "grad = [gradient(expr, var) for var in variables]" in s
-    b = "row.append(gradient(grad[i], variables[j]))" in s and "for i in range(n):" in s and "for j in range(n):" in s and "hessian.append(row)" in s
+    b = Frag(s, "row.append(gradient(grad[i], variables[j]))", "for i in range(n):", "for j in range(n):", "hessian.append(row)")
     rep.pin('hessian shape rules', "R17.1", "compute_hessian", a, "first pass: grad[i] = d expr / d variables[i]" if a else "the first pass is not [gradient(expr, var) for var in variables]", loc=ch.loc, detail="first-pass")
     rep.pin('hessian shape rules', "R17.1", "compute_hessian", b, "H[i][j] = d grad[i] / d variables[j], both indices over the same list" if b else "H[i][j] is not gradient(grad[i], variables[j]) with i, j over range(n)", loc=ch.loc, detail="second-pass")
     n_ok = "n = len(variables)" in s
@@ -45,7 +45,7 @@ def check(prog, rep):
     if not fn:
         raise AnalysisError("compile_hessian.hessian_fn not found")
     u = src(fn[0].node)
-    mir = "val = compiled_elements[i, j](x)" in u and "result[i, j] = val" in u and "if i != j:\n                result[j, i] = val" in u and "for j in range(i, n)" in u and "result = np.zeros((n, n))" in u
+    mir = Frag(u, "val = compiled_elements[i, j](x)", "result[i, j] = val", "if i != j:\n                result[j, i] = val", "for j in range(i, n)", "result = np.zeros((n, n))")
     rep.pin('hessian shape rules', "R17.2", "compile_hessian.hessian_fn", mir, "result[i, j] = result[j, i] = element (i, j) for all j >= i" if mir else "the general Hessian closure does not write element (i, j) to [i, j] and mirror the same value to [j, i]", loc=fn[0].loc, detail="mirroring")
     gen = "hessian_exprs = compute_hessian(expr, variables)" in t
     rep.pin('hessian shape rules', "R17.2", "compile_hessian", gen, "general path differentiates the same expression against the same variables" if gen else "the general path does not use compute_hessian(expr, variables)", loc=cf.loc, detail="general-path")
@@ -71,9 +71,9 @@ def check(prog, rep):
         raise AnalysisError("no caller of compile_hessian in the SciPy solver")
     for f in sc:
         w = src(f.node)
-        ok = "if problem.sense == 'maximize':\n                obj_expr = -obj_expr" in w and "compiled_hess = compile_hessian(obj_expr, variables)" in w and "obj_expr = problem.objective" in w
+        ok = Frag(w, "if problem.sense == 'maximize':\n                obj_expr = -obj_expr", "compiled_hess = compile_hessian(obj_expr, variables)", "obj_expr = problem.objective")
         rep.pin('hessian shape rules', "R17.4", f.name, ok, "the Hessian is compiled from the objective, negated iff the problem is a maximisation (same guard as objective and gradient, see C09 R09.2)" if ok else "the Hessian for SciPy is not compiled from the objective negated under `problem.sense == 'maximize'`", loc=f.loc, detail="negated-iff-maximise")
-        ok2 = "cache['hess_fn'] = compiled_hess" in w and "if 'hess_fn' not in cache" in w
+        ok2 = Frag(w, "cache['hess_fn'] = compiled_hess", "if 'hess_fn' not in cache")
         rep.pin('hessian shape rules', "R17.4", f.name, ok2, "compiled once per cache generation" if ok2 else "the compiled Hessian is not stored in the current solver cache", loc=f.loc, detail="cached")
     rep.expect_min("R17.1", 5)
     rep.expect_min("R17.2", 3)
